@@ -18,6 +18,7 @@ import (
 	"fmt"
 	"os"
 	"reflect"
+	"runtime/pprof"
 	"strings"
 
 	"go.flow.arcalot.io/pluginsdk/schema"
@@ -83,6 +84,9 @@ type caseT struct {
 	Canon  *canonT         `json:"canon"`
 	Gen    genT            `json:"gen"`
 	Skip   []string        `json:"skip"`
+	// SkipLoops: leave out the inputs that lead a chain of single-property shorthands back to
+	// its start (set by the orchestrator after such an input killed the process once)
+	SkipLoops bool `json:"skip_loops"`
 	Seed   int64           `json:"seed"`
 	Size   int             `json:"size"`
 	N      int             `json:"n"`
@@ -100,6 +104,7 @@ type resT struct {
 	Steps      int              `json:"steps"`
 	Inputs     int              `json:"inputs"`
 	Deepest    int              `json:"deepest"`
+	Loops      int              `json:"loops"`
 	Mismatches []mismatch       `json:"mismatches,omitempty"`
 	Trace      []map[string]any `json:"trace,omitempty"`
 	Keys       []string         `json:"keys,omitempty"`
@@ -420,9 +425,18 @@ func (p *pair) compare(res *resT, mkIn func() any, exp *expT, label map[string]a
 	// the unserialized value through Validate and Serialize of both schemas
 	va := guarded(func() (any, error) { return nil, p.orig.Validate(a.v) })
 	vb := guarded(func() (any, error) { return nil, p.inl.Validate(a.v) })
-	sa := guarded(func() (any, error) { return p.orig.Serialize(a.v) })
-	sb := guarded(func() (any, error) { return p.inl.Serialize(a.v) })
-	res.Evals += 4
+	// (ListSchema.Serialize validates the whole subtree at every level: quadratic in the depth)
+	skipSer := false
+	if d, ok := label["depth"].(int); ok && d > 1000 {
+		skipSer = true
+	}
+	sa, sb := outcome{}, outcome{}
+	if !skipSer {
+		sa = guarded(func() (any, error) { return p.orig.Serialize(a.v) })
+		sb = guarded(func() (any, error) { return p.inl.Serialize(a.v) })
+		res.Evals += 2
+	}
+	res.Evals += 2
 	for _, q := range []struct {
 		op   string
 		x, y outcome
@@ -548,15 +562,32 @@ func runTree(c *caseT) *resT {
 	for _, s := range c.Skip {
 		skip[s] = true
 	}
+	x := lex{ext: c.Ext, nstab: c.Canon.NsTab}
+	g := newGraph(c.Tree, x)
+	// inputs that may recurse forever are evaluated last, so that a fatal stack overflow costs nothing else
+	var late []func()
 	for _, r := range c.Canon.Raws {
 		key := canon(r.Raw)
 		if skip[key] {
 			continue
 		}
 		raw, exp := r.Raw, r.Exp
-		p.compare(res, func() any { return raw.toGo() }, &exp, map[string]any{"raw": key, "origin": "model"})
+		f := func() {
+			p.compare(res, func() any { return raw.toGo() }, &exp, map[string]any{"raw": key, "origin": "model"})
+		}
+		if g.hasLoop(c.Tree, c.Tree, raw.toGo(), map[node]bool{}) {
+			res.Loops++
+			late = append(late, f)
+			continue
+		}
+		f()
 	}
-	generated(res, p, c.Tree, inl, lex{ext: c.Ext, nstab: c.Canon.NsTab}, c.Gen, skip)
+	late = append(late, generated(res, p, g, c.Tree, inl, c.Gen, skip)...)
+	if !c.SkipLoops {
+		for _, f := range late {
+			f()
+		}
+	}
 	return res
 }
 
@@ -577,4 +608,12 @@ func handler(raw json.RawMessage) any {
 	return &resT{HarnessErr: "unknown op " + c.Op}
 }
 
-func main() { sup.Main(handler) }
+func main() {
+	if f := os.Getenv("C14_PROFILE"); f != "" && len(os.Args) > 1 && os.Args[1] == "-child" {
+		if w, err := os.Create(f); err == nil {
+			_ = pprof.StartCPUProfile(w)
+			defer pprof.StopCPUProfile()
+		}
+	}
+	sup.Main(handler)
+}
